@@ -71,11 +71,23 @@ Proof.
   match type of X with (?t, _, _) = _ => assert (El : l = t) by congruence end. assert (tr = false) by congruence. subst l.
   cbn [md_contents md_payload md_preamble md_type md_length]. repeat split; try assumption; try lia.
 Qed.
+(* the registered decoder decodeMDP: no panic; the layer is added exactly when it returns nil *)
+Theorem C19_mdp_decoder_no_panic : forall data, bytes_ok data ->
+  let '(l, added, nx, o, tr) := md_decode_fn pf pip pb data in
+  is_panic o = false /\ o <> Err 99 /\ (added = true <-> o = Ok tt) /\ (o = Ok tt -> nx = Some 1810).
+Proof.
+  intros data Hb. unfold md_decode_fn. destruct (C19_mdp_no_panic false md_fresh data Hb) as [P1 P2]. fold (md_decode_into pf pip pb) in P1, P2.
+  pose proof (C19_mdp_shape false md_fresh data) as Sh. fold (md_decode_into pf pip pb) in Sh.
+  destruct (md_decode_into pf pip pb md_fresh data) as [[l o] tr]. cbn [fst snd] in P1, P2.
+  destruct o as [[]|e|s]; repeat split; intros; try discriminate; try reflexivity; try assumption.
+  destruct (Sh l tr Hb eq_refl) as [_ [_ [_ [T _]]]]. rewrite T. reflexivity.
+Qed.
 End AnyParsers.
 
 Print Assumptions C19_mdp_no_panic.
 Print Assumptions C05_mdp_fresh.
 Print Assumptions C19_mdp_shape.
+Print Assumptions C19_mdp_decoder_no_panic.
 
 (* before the repair: a device-info string (and every other TLV value) stays for a later packet that does not carry it *)
 Theorem C05_mdp_orig_refuted : let pf := fun _ : list Z => 0 in let pip := fun _ : list Z => @nil Z in let pb := fun _ : list Z => false in
